@@ -176,6 +176,9 @@ impl RtpsStatefulWriter {
         source_guid_prefix: GuidPrefix,
         message_writer: &(impl WriteMessage + ?Sized),
     ) {
+        if self.guid.entity_id() != nackfrag_submessage._writer_id() {
+            return;
+        }
         let reader_guid = Guid::new(source_guid_prefix, nackfrag_submessage.reader_id());
 
         if let Some(reader_proxy) = self
@@ -198,15 +201,19 @@ impl RtpsStatefulWriter {
                         .len()
                         .div_ceil(self.data_max_size_serialized);
 
-                    for request_fragment_number in
-                        core::iter::once(nackfrag_submessage.fragment_number_state().base())
-                            .chain(nackfrag_submessage.fragment_number_state().set())
-                    {
+                    let base_fragment_number = nackfrag_submessage.fragment_number_state().base();
+                    for request_fragment_number in core::iter::once(base_fragment_number).chain(
+                        nackfrag_submessage
+                            .fragment_number_state()
+                            .set()
+                            .filter(|n| *n != base_fragment_number),
+                    ) {
+                        // Fragment numbers on the wire start at 1, fragment indexes at 0
                         let request_fragment_number = request_fragment_number as usize;
-                        // Either send a DATAFRAG submessages or send a single DATA submessage
-                        if (request_fragment_number) < number_of_fragments
+                        if (1..=number_of_fragments).contains(&request_fragment_number)
                             && cache_change.kind == ChangeKind::Alive
                         {
+                            let request_fragment_number = request_fragment_number - 1;
                             let writer_id = self.guid.entity_id();
                             let reader_id = reader_proxy.remote_reader_guid().entity_id();
                             let data_frag = cache_change.as_data_frag_submessage(
